@@ -29,7 +29,8 @@ ANCHORS = [
     "acnportal.acnsim.events.event:Event.__lt__",
 ]
 REQUIRED = ["exhaustive_sequences", "random_ops", "json_round_trips", "op:get_event", "op:get_current_events",
-            "op:add_events_bulk", "op:constructor_events", "ties_seen"]
+            "op:add_events_bulk", "op:constructor_events", "ties_seen", "sim_runs_monitored", "sim_json_round_trips",
+            "queue_monitor:get_current_events", "queue_monitor:add", "queue_monitor:get_last_timestamp", "suite:queue_monitor:get_event"]
 BUDGET_S = {"quick": 240, "thorough": 3000}
 EXHAUSTIVE = {"quick": "all sequences of length <= 5 over the 13-operation alphabet, get_event on an empty queue excluded (count: monitor_events.exhaustive_sequences)",
               "thorough": "all sequences of length <= 6 over the 13-operation alphabet, get_event on an empty queue excluded (count: monitor_events.exhaustive_sequences)"}
@@ -45,6 +46,14 @@ def cases(seed, tier):
     out.append({"kind": "exh_short"})
     nr = 400 if tier == "quick" else 20000
     out += [{"kind": "rand", "seed": rng.randrange(1 << 40), "n": rng.choice([50, 120, 300])} for _ in range(nr)]
+    # the queue embedded in real runs: generated simulations (incl. an interruption + JSON round trip in the middle) and the
+    # repository's own tests, under the class-level contract monitor (vlib/qmonitor.py)
+    ns = 120 if tier == "quick" else 4000
+    from vlib import gen
+    for _ in range(ns):
+        out.append({"kind": "sim", "desc": gen.scenario(rng, sched=rng.choice(["scripted", "uncontrolled", "sorted"]),
+                                                        kinds=("EVSE", "FR"), noise_p=0.0), "json_at": rng.choice([None, 1, 3, 6])})
+    out.append({"kind": "suite"})
     return out
 
 
@@ -290,7 +299,58 @@ def _run_rand(case, obs):
     obs.sample = {"kind": "random", "ops": case["n"], "timestamps": nts, "first_ops": hist[:8]}
 
 
+def worker_init():
+    from vlib import qmonitor
+    qmonitor.install()
+
+
+def _run_sim(case, obs):
+    from vlib import build, qmonitor
+    from acnportal.acnsim import Simulator
+    d = case["desc"]
+    qmonitor.CUR["obs"] = obs
+    try:
+        sim, evs = build.build_sim(d)
+        k = case.get("json_at")
+        if k is not None:
+            orig = sim.scheduler.run
+            fired = []
+
+            def flaky():
+                if sim.iteration >= k and not fired:
+                    fired.append(1)
+                    raise KeyboardInterrupt
+                return orig()
+
+            sim.scheduler.run = flaky
+            try:
+                sim.run()
+            except KeyboardInterrupt:
+                sim.scheduler.run = orig
+                s2 = Simulator.from_json(sim.to_json())
+                s2.update_scheduler(sim.scheduler)
+                obs.ev("sim_json_round_trips")
+                sim = s2
+        try:
+            sim.run()
+        except Exception:
+            obs.ev("sim_run_raised_not_judged_here")
+    finally:
+        qmonitor.CUR["obs"] = None
+    obs.ev("sim_runs_monitored")
+    obs.evals = max(1, sum(v for kk, v in obs.events.items() if kk.startswith("queue_monitor:")))
+    obs.sample = {"kind": "sim", "queue_calls": obs.evals, "periods": sim.iteration}
+
+
 def run_case(case, obs):
+    if case["kind"] == "sim":
+        return _run_sim(case, obs)
+    if case["kind"] == "suite":
+        from vlib import simrun
+        simrun.run_repo_suite_monitored("C11", obs)
+        obs.evals = max(1, sum(v for kk, v in obs.events.items() if kk.startswith("suite:queue_monitor:")))
+        obs.sample = {"kind": "suite", "queue_calls": obs.evals}
+        return
     if case["kind"] == "exh":
         _run_exh(case, obs)
     elif case["kind"] == "exh_short":
